@@ -42,7 +42,13 @@ class FakeLine:
             self._len = symx.SymReal(l)
         return self._len
 
+    calls = 0
+    limit = None
+
     def interpolate(self, d):
+        FakeLine.calls += 1
+        if FakeLine.limit is not None and FakeLine.calls > FakeLine.limit:
+            raise _Diverges()
         l = self.length
         t = d / l
         pt = (self.p1[0] + t * (self.p2[0] - self.p1[0]), self.p1[1] + t * (self.p2[1] - self.p1[1]))
@@ -51,6 +57,10 @@ class FakeLine:
             coords = [pt]
 
         return P()
+
+
+class _Diverges(Exception):
+    """the interpolation loop went past any number of steps a terminating run can need"""
 
 
 class GeomShim:
@@ -116,6 +126,43 @@ def h_densify_segment(K):
         else:
             prove(f"pt{k}_on_the_edge", cross == 0)
             prove(f"pt{k}_at_k_resolutions", d2(out[k], (x1, y1)) == (k * k) * r2)
+
+
+def h_densify_nonpositive():
+    """a resolution that is not positive: densify returns or refuses (ValueError) -- it does not
+    loop for ever (resolution 0 is what "auto" computes for a geometry without area)"""
+    import odc.geo.geom as geom
+
+    x1, y1, x2, y2 = Real("x1"), Real("y1"), Real("x2"), Real("y2")
+    r = Real("resolution")
+    assume(r <= 0)
+    assume(Or(x1 != x2, y1 != y2))
+    if symx.concrete_mode():
+        import signal
+
+        def on_alarm(*a):
+            raise _Diverges()
+
+        signal.signal(signal.SIGALRM, on_alarm)
+        signal.alarm(5)
+        try:
+            geom.densify([(x1, y1), (x2, y2)], r)
+        except ValueError:
+            pass
+        except _Diverges:
+            prove("terminates_or_refuses", False)
+        finally:
+            signal.alarm(0)
+        return
+    FakeLine.calls, FakeLine.limit = 0, 8
+    try:
+        geom.densify([(x1, y1), (x2, y2)], r)
+    except ValueError:
+        pass
+    except _Diverges:
+        prove("terminates_or_refuses", False)
+    finally:
+        FakeLine.limit = None
 
 
 def h_densify_three(K):
@@ -329,6 +376,9 @@ OBLIGATIONS = [
     Ob("D1_densify_segment", h_densify_segment, tiered([dict(K=4)], [dict(K=4), dict(K=8)]),
        descr="densify on one edge: endpoints kept, every edge of the result <= resolution, inserted vertices on the edge at k*resolution from the start",
        functions=("odc.geo.geom.densify",), bounds="endpoints and resolution symbolic reals, edge length <= K*resolution", stubs=("LineString length/interpolate contract",), setup=setup, fresh_only=True, timeout_ms=60000),
+    Ob("D1_nonpositive_resolution", h_densify_nonpositive, fixed(), descr="densify with a resolution <= 0 returns or raises ValueError (no endless interpolation loop)",
+       functions=("odc.geo.geom.densify",), bounds="endpoints symbolic and distinct, resolution symbolic <= 0; 'does not terminate' = more than 8 interpolation steps on one edge in the symbolic run (each step adds resolution <= 0 to a distance that must exceed the edge length to stop), 5 s alarm in the replay",
+       stubs=("LineString length/interpolate contract",), setup=setup, fresh_only=True, timeout_ms=60000),
     Ob("D2_densify_three", h_densify_three, tiered([dict(K=2)], [dict(K=2), dict(K=4)]), descr="three-vertex line: original vertices retained in order, every edge <= resolution",
        functions=("odc.geo.geom.densify",), bounds="three symbolic vertices, each edge <= K*resolution", stubs=("LineString contract",), setup=setup, fresh_only=True, timeout_ms=60000),
     Ob("D3_segmented_dispatch", h_segmented_dispatch, fixed(), descr="segmented(): points cloned, collections recursed, every polygon ring and line densified with the requested resolution, geometry type preserved",
